@@ -143,8 +143,8 @@ impl Property for C11 {
     }
     fn cases(&self, tier: Tier) -> u64 {
         match tier {
-            Tier::Quick => 20_000,
-            Tier::Thorough => 300_000,
+            Tier::Quick => 100_000,
+            Tier::Thorough => 1_000_000,
         }
     }
     fn required_labels(&self, _tier: Tier) -> Vec<&'static str> {
